@@ -396,6 +396,8 @@ def grid_for(rec, failing_cells, name, make, X, data_id, what_kind="detector"):
         if pred:
             f = {(e, s) for e, s in f if e != "transform"}
             f = {(e, s) for e, s in f if e in ("predict", "fit") or s.replace("predict-after-update:", "") not in pred}
+        if any(e == "transform_scores" for e, _ in f):          # the scores attribute is what transform_scores returned
+            f = {(e, s) for e, s in f if e != "scores"}
         fails[cell] = f
     det = make()
     for cell in grid:
